@@ -275,7 +275,7 @@ def fresnel(n1, n2, theta1):
 
     # Total reflection (snell() gives NaN without any NaN input): everything
     # is reflected.
-    total = np.isnan(theta2) & ~np.isnan(n1 * n2 * costheta1)
+    total = np.isnan(theta2) & ~np.isnan(np.multiply(n1, n2) * costheta1)
     Rv = np.where(total, 1.0, Rv)[()]
     Rh = np.where(total, 1.0, Rh)[()]
 
